@@ -247,6 +247,49 @@ func runC11(a *args) error {
 			wrs = append(wrs, wrCase{Path: path, DimOK: dimOK, Local: local, Reachable: reachable, Obs: obs, Stored: stored})
 			st.count(fmt.Sprintf("write:%s:local=%v:reach=%v:dim=%v:%s", path, local, reachable, dimOK, obs))
 		}
+		// ---- (2b) a proposal the group accepts but cannot commit (the second of two replicas is cut off): with no
+		// deadline of the caller's own the call must end with an error when the proposal times out - and nothing is stored
+		{
+			c2 := newSimCluster([]uint64{1, 2})
+			meta2 := newDatasetMeta(r, 2, pb.Space_Euclidean, [][]uint64{{1, 2}}, 2)
+			if err := c2.createDataset(meta2); err != nil {
+				return err
+			}
+			ds2 := c2.nodes[1].datasets[uuid.FromBytesOrNil(meta2.Id)]
+			have := uuidFrom(r)
+			ctx0, cancel0 := context.WithTimeout(context.Background(), 2*time.Second)
+			if e := ds2.Insert(ctx0, have, []float32{1, 2}, nil); e != nil {
+				cancel0()
+				return fmt.Errorf("pre-insert (2 replicas): %v", e)
+			}
+			cancel0()
+			c2.nodes[2].setUnreachable(true)
+			fresh := uuidFrom(r)
+			type outc struct {
+				path string
+				err  error
+			}
+			ch := make(chan outc, 3)
+			go func() { ch <- outc{"Insert", ds2.Insert(context.Background(), fresh, []float32{3, 4}, nil)} }()
+			go func() { ch <- outc{"Update", ds2.Update(context.Background(), have, []float32{3, 4}, nil)} }()
+			go func() { ch <- outc{"Remove", ds2.Remove(context.Background(), have)} }()
+			for k := 0; k < 3; k++ {
+				select {
+				case o := <-ch:
+					_, gerrF := ds2.VerifIndex(0).Get(fresh)
+					vH, gerrH := ds2.VerifIndex(0).Get(have)
+					stored := (o.path == "Insert" && gerrF == nil) || (o.path == "Update" && gerrH == nil && len(vH) == 2 && vH[0] == 3) || (o.path == "Remove" && gerrH != nil)
+					st.count(fmt.Sprintf("uncommittable:%s:err=%v", o.path, o.err != nil))
+					if o.err == nil && !stored {
+						st.ImplFailures = append(st.ImplFailures, implFailure{Case: k, What: fmt.Sprintf("%s on a partition that cannot commit (second replica cut off, caller without deadline) returned success; nothing was applied", o.path), Key: "acknowledged-not-applied:" + o.path, Input: map[string]interface{}{"path": o.path, "replicas": 2, "cut": 2}})
+					}
+				case <-time.After(12 * time.Second):
+					st.ImplFailures = append(st.ImplFailures, implFailure{Case: k, What: "a write on a partition that cannot commit did not return within 12 s", Key: "write-never-returns", Input: map[string]interface{}{"replicas": 2, "cut": 2}})
+				}
+			}
+			c2.nodes[2].setUnreachable(false)
+			c2.close()
+		}
 		// ---- (3) batches: exactly the failing ids are reported
 		ds := c.nodes[1].datasets[dsid]
 		for b := 0; b < 12; b++ {
